@@ -28,6 +28,8 @@ def wx_scen(r, i):
         t += 0 if burst else r.choice([3, 10, 40, 90])
     case = {"id": i, "throttle_ms": th, "events": evs, "error_behaviours": behs, "handler": {}, "tail_ms": 250 + th,
             "errors_cap": r.choice([2, 64]) if burst else 64}
+    if r.random() < 0.25 and "keepref" not in behs.values():
+        case["rt"] = "current"
     if burst:
         case["error_slow_ms"] = 2
         case["tail_ms"] = 600
@@ -44,6 +46,10 @@ def corpus_wx():
     burst = [{"id": k, "at_ms": 40, "verdict": "err", "prio": "normal"} for k in range(1, 5)]
     out.append({"throttle_ms": 0, "events": burst, "error_behaviours": {"1": "elevate"}, "handler": {}, "tail_ms": 1200, "errors_cap": 1, "error_slow_ms": 200})
     out.append({"throttle_ms": 0, "events": burst, "error_behaviours": {"2": "critical"}, "handler": {}, "tail_ms": 1200, "errors_cap": 1, "error_slow_ms": 150})
+    # the same on a current-thread runtime
+    for cs_ in [json.loads(json.dumps(x)) for x in out[:2]]:
+        cs_["rt"] = "current"
+        out.append(cs_)
     for k, cs_ in enumerate(out):
         cs_["id"] = 200000 + k
     return out
